@@ -246,6 +246,32 @@ def cell_attrs(attrs, bs):
     return out
 
 
+def row_chars(bs):
+    """[(byte length, columns)] of the displayed characters of one canvas row."""
+    from urwid import str_util
+    out = []
+    i, n = 0, len(bs)
+    while i < n:
+        j = max(str_util.move_next_char(bs, i, n), i + 1)
+        out.append((j - i, str_util.calc_width(bs, i, j)))
+        i = j
+    return out
+
+
+def split_cols(attrs, bs, c0, c1):
+    """The per-byte attributes of the characters of a row lying in screen columns [c0, c1)."""
+    from urwid import str_util
+    out, col, i, n = [], 0, 0, len(bs)
+    while i < n:
+        j = max(str_util.move_next_char(bs, i, n), i + 1)
+        w = str_util.calc_width(bs, i, j)
+        if c0 <= col and col + w <= c1 and not (w == 0 and col == c0 and c0 > 0):
+            out += attrs[i:j]
+        col += w
+        i = j
+    return out
+
+
 # ---------------------------------------------------------------- SGR, read as a terminal does (oracle)
 def parse_sgr(esc):
     m = re.fullmatch(r"\x1b\[([0-9;]*)m", esc)
@@ -549,6 +575,64 @@ class C17(core.Check):
                 self._stash = {}
                 return {"err": errnorm(errname(e))}
 
+    # ---- clipping of rendered rows
+    def clip_regions(self, case):
+        """Column ranges [c0, c1) of the text canvas that stay visible."""
+        w = case["w"]
+        if case["via"] == "overlay":
+            l0, k = case["left"], case["cols"]          # the top widget covers columns [l0, l0 + k)
+            return [r for r in ((0, l0), (l0 + k, w)) if r[0] < r[1]]
+        return [(case["left"], case["left"] + case["cols"])]
+
+    def impl_clip(self, case):
+        import urwid
+        with Enc(case["enc"]):
+            try:
+                t = urwid.Text(build_markup(case["m"]), align=case["align"], wrap=case["wrap"])
+                w = case["w"]
+                canv = t.render((w,))
+                full = content_rows(canv)
+                via = case["via"]
+                regions = self.clip_regions(case)
+                clips = []      # per region, per row: per-byte attribute ids of the visible part
+                if via == "content":
+                    (c0, c1), = regions
+                    rows = []
+                    for row in canv.content(trim_left=c0, cols=c1 - c0):
+                        a = []
+                        for at, _cs, bs in row:
+                            a += [id_of(at)] * len(bs)
+                        rows.append(a)
+                    clips.append(rows)
+                elif via == "padtrim":
+                    (c0, c1), = regions
+                    cc = urwid.CompositeCanvas(canv)
+                    cc.pad_trim_left_right(-c0, -(w - c1))
+                    clips.append([a for a, _ in content_rows(cc)])
+                elif via == "overlay":
+                    nrows = canv.rows()
+                    top = urwid.Filler(urwid.Text(("top-attr", "T" * case["cols"]), wrap="clip"), "top")
+                    ov = urwid.Overlay(top, urwid.Filler(t, "top"), ("fixed left", case["left"]), case["cols"],
+                                       ("fixed top", 0), nrows)
+                    orows = []
+                    for row in ov.render((w, nrows)).content():
+                        a, bs = [], b""
+                        for at, _cs, x in row:
+                            a += [(-7 if at == "top-attr" else id_of(at))] * len(x)
+                            bs += x
+                        orows.append((a, bs))
+                    for c0, c1 in regions:
+                        clips.append([split_cols(a, bs, c0, c1) for a, bs in orows])
+                else:
+                    raise core.MachineryError("unknown clip path " + via)
+            except core.MachineryError:
+                raise
+            except Exception as e:
+                self._stash = {}
+                return {"err": errnorm(errname(e))}
+            self._stash = {"case": core.canon(case), "full": full, "regions": regions}
+            return {"clips": [[rle_merge(a) for a in rows] for rows in clips]}
+
     # ---- attribute maps over widget trees
     def build_tree(self, t, leaves, maps):
         import urwid
@@ -774,6 +858,28 @@ class C17(core.Check):
                 except Exception:
                     return None
                 return out + enc_layout(ls)
+        if k == "clip":
+            import urwid
+            with Enc(case["enc"]):
+                try:
+                    t = urwid.Text(build_markup(case["m"]), align=case["align"], wrap=case["wrap"])
+                    canv = t.render((case["w"],))
+                except Exception:
+                    return None
+                out = [8, 0]
+                nq = 0
+                for c0, c1 in self.clip_regions(case):
+                    for bs, arow in zip(canv._text, canv._attr):
+                        rc = row_chars(bs)
+                        out += [c0, c1, len(rc)]
+                        for b, wd in rc:
+                            out += [b, wd]
+                        out.append(len(arow))
+                        for a, n in arow:
+                            out += oz(id_of(a)) + [n]
+                        nq += 1
+                out[1] = nq
+                return out
         if k == "maps":
             return self.encode_maps(case)
         if k == "escape":
@@ -921,6 +1027,17 @@ class C17(core.Check):
                 for _ in range(n):
                     rows.append(nrle())
                 return {"rows": rows}
+            if k == "clip":
+                clips = []
+                st = self._stash if self._stash.get("case") == core.canon(case) else None
+                nrows = len(st["full"]) if st else 0
+                for _ in self.clip_regions(case):
+                    rows = []
+                    for _ in range(nrows):
+                        nxt(), nxt(), nxt(), nxt()
+                        rows.append(rle_merge(rle_expand(nrle())))
+                    clips.append(rows)
+                return {"clips": clips}
             if k == "maps":
                 n = nxt()
                 views, obs_all = [], []
@@ -1017,6 +1134,8 @@ class C17(core.Check):
             return self.oracle_markup(case, res)
         if k in ("text", "layout") and st is not None:
             return self.oracle_rows(case, st)
+        if k == "clip" and st is not None:
+            return self.oracle_clip(case, res, st)
         if k == "maps" and st is not None:
             return self.oracle_maps(case, st)
         if k == "escape" and st is not None:
@@ -1123,6 +1242,93 @@ class C17(core.Check):
                 if msgs:
                     break
         return msgs
+
+    def oracle_clip(self, case, res, st):
+        """Clipping shows the columns [c0, c1) of the row.  Every visible cell carries the attribute of the
+        character it shows; where the cut runs through a double-width character the single blank cell that
+        replaces its visible half carries the attribute of THAT character, not of a neighbour."""
+        msgs = []
+        with Enc(case["enc"]):
+            for (c0, c1), rows in zip(st["regions"], res["clips"]):
+                for y, (clipped, (fa, fb)) in enumerate(zip(rows, st["full"])):
+                    want = self.column_attrs(fa, fb)
+                    if want is None:
+                        continue
+                    want = want[c0:c1]
+                    got = rle_expand(clipped)
+                    # the clipped row: blank pad cells are 1 byte / 1 column; other characters keep their bytes
+                    gb = self.clipped_bytes(fb, c0, c1)
+                    if gb is None or len(gb) != len(got):
+                        continue        # the visible bytes are not what clipping the row gives: not judged here
+                    gotc = self.column_attrs(got, gb)
+                    if gotc is None or len(gotc) != len(want):
+                        continue
+                    for x, (g, e) in enumerate(zip(gotc, want)):
+                        if e != "any" and g != "split" and g != e:
+                            edge = " (the blank replacing half of a double-width character)" if \
+                                (x == 0 and c0 > 0 and self.column_is_half(fb, c0)) or \
+                                (x == len(want) - 1 and self.column_is_half(fb, c1)) else ""
+                            msgs.append("clip via %s: row %d column %d%s carries attribute %r, the character there has %r"
+                                        % (case["via"], y, c0 + x, edge, g, e))
+                            return msgs
+        return msgs
+
+    @staticmethod
+    def column_attrs(attrs, bs):
+        """Per screen column the attribute of the character occupying it ('any' where a zero-width character with a
+        different attribute is attached, None-able); None when the bytes and attributes do not line up."""
+        from urwid import str_util
+        if len(attrs) != len(bs):
+            return None
+        out, i, n = [], 0, len(bs)
+        while i < n:
+            j = max(str_util.move_next_char(bs, i, n), i + 1)
+            w = str_util.calc_width(bs, i, j)
+            a = attrs[i] if all(x == attrs[i] for x in attrs[i:j]) else "split"
+            if w == 0:
+                if out and out[-1] != a:
+                    k = len(out) - 1
+                    base = out[k]
+                    while k >= 0 and out[k] == base and k >= len(out) - 2:
+                        out[k] = "any"
+                        k -= 1
+            else:
+                out += [a] * w
+            i = j
+        return out
+
+    @staticmethod
+    def column_is_half(bs, col):
+        """Does column boundary col fall inside a double-width character of the row?"""
+        from urwid import str_util
+        c, i, n = 0, 0, len(bs)
+        while i < n:
+            j = max(str_util.move_next_char(bs, i, n), i + 1)
+            w = str_util.calc_width(bs, i, j)
+            if c < col < c + w:
+                return True
+            c += w
+            i = j
+        return False
+
+    @staticmethod
+    def clipped_bytes(bs, c0, c1):
+        """The bytes a row shows in columns [c0, c1): whole characters, one blank per half character."""
+        from urwid import str_util
+        out, c, i, n = b"", 0, 0, len(bs)
+        while i < n:
+            j = max(str_util.move_next_char(bs, i, n), i + 1)
+            w = str_util.calc_width(bs, i, j)
+            if w == 0:
+                if c0 < c <= c1 or (c == c0 == 0):
+                    out += bs[i:j]
+            elif c0 <= c and c + w <= c1:
+                out += bs[i:j]
+            elif c < c1 and c + w > c0:
+                out += b" " * (min(c + w, c1) - max(c, c0))
+            c += w
+            i = j
+        return out
 
     def oracle_maps(self, case, st):
         """Reference: a grid of attribute names; a map replaces exactly the names it lists (the focus map when
@@ -1279,6 +1485,8 @@ class C17(core.Check):
             return any(a is not None for a, _ in res["ok"][2])
         if k in ("text", "layout"):
             return any(a is not None for row in res["rows"] for a, _ in row)
+        if k == "clip":
+            return any(a is not None for rows in res["clips"] for r in rows for a, _ in r)
         if k == "maps":
             return any(mp for _, mp in res["views"])
         if k == "escape":
@@ -1296,6 +1504,17 @@ class C17(core.Check):
         inc("kind:" + case["kind"])
         if "err" in res:
             inc("err:" + case["kind"] + ":" + str(res["err"]))
+        if case["kind"] == "clip":
+            inc("clip-via:" + case["via"])
+            st = self._stash
+            if "clips" in res and st.get("full"):
+                with Enc(case["enc"]):
+                    for c0, c1 in st.get("regions", []):
+                        for _fa, fb in st["full"]:
+                            if c0 > 0 and self.column_is_half(fb, c0):
+                                inc("clip:left-cut-through-wide-char")
+                            if self.column_is_half(fb, c1):
+                                inc("clip:right-cut-through-wide-char")
         if case["kind"] in ("text", "layout"):
             inc("enc:" + case["enc"])
             if case["kind"] == "text":
@@ -1438,6 +1657,44 @@ class C17(core.Check):
                 else:
                     attr.append([self.rand_attr(rng), rng.choice([1, 5])])
         return {"kind": "layout", "text": codes, "isb": isb, "attr": attr, "ls": ls, "w": w, "enc": enc}
+
+    def gen_clip(self, rng):
+        """Text rich in double-width characters with an attribute boundary at (almost) every character,
+        clipped on the left / right / both sides at every kind of column."""
+        enc = rng.choice(["utf-8", "utf-8", "utf-8", "euc-jp", "iso8859-1"])
+        alpha = {"utf-8": [0x4E16, 0x754C, 0x4E16, 97, 98, 32, 0x1F600, 0xE9, 0x301],
+                 "euc-jp": [0x4E16, 0x754C, 97, 98, 32], "iso8859-1": [97, 98, 0xE9, 32, 0x2500]}[enc]
+        pieces = []
+        for _ in range(rng.choice([2, 3, 4, 5, 7])):
+            n = rng.choice([1, 1, 1, 2, 3])
+            pieces.append(["t", self.rand_attr(rng, 0.15), ["s", False, [rng.choice(alpha) for _ in range(n)]]])
+        w = rng.choice([3, 4, 5, 6, 8, 11])
+        via = rng.choice(["content", "padtrim", "overlay"])
+        if via == "overlay":
+            left = rng.randrange(0, w)
+            cols = rng.randrange(1, w - left + 1)
+            if left == 0 and cols == w:
+                cols = w - 1
+        else:
+            left = rng.randrange(0, w)
+            cols = rng.randrange(1, w - left + 1)
+        return {"kind": "clip", "m": ["l", pieces], "w": w, "align": rng.choice(["left", "left", "center", "right"]),
+                "wrap": rng.choice(["any", "clip", "space", "ellipsis"]), "enc": enc, "via": via, "left": left, "cols": cols}
+
+    def small_clips(self):
+        """Exhaustive small scope: every string of 3 characters over {a, wide}, a different attribute on each,
+        every clip window, the three clip paths."""
+        import itertools
+        for chars in itertools.product([97, 0x4E16], repeat=3):
+            m = ["l", [["t", i, ["s", False, [c]]] for i, c in enumerate(chars)]]
+            w = sum(2 if c > 255 else 1 for c in chars)
+            for left in range(0, w):
+                for cols in range(1, w - left + 1):
+                    for via in ("content", "padtrim", "overlay"):
+                        if via == "overlay" and left == 0 and cols == w:
+                            continue
+                        yield {"kind": "clip", "m": m, "w": w, "align": "left", "wrap": "clip", "enc": "utf-8",
+                               "via": via, "left": left, "cols": cols}
 
     def rand_map(self, rng, none_p=0.15):
         if rng.random() < 0.3:
@@ -1595,6 +1852,9 @@ class C17(core.Check):
             yield self.gen_layout(rng, False)
         for _ in range(8000 if big else 700):
             yield self.gen_layout(rng, True)
+        yield from self.small_clips()
+        for _ in range(40000 if big else 3000):
+            yield self.gen_clip(rng)
         for _ in range(40000 if big else 3500):
             yield self.gen_maps(rng)
         yield from self.sweep_escape(tier)
@@ -1610,7 +1870,9 @@ class C17(core.Check):
     def search_cases(self, rng, tier):
         while True:
             r = rng.random()
-            if r < 0.3:
+            if r < 0.15:
+                yield self.gen_clip(rng)
+            elif r < 0.3:
                 yield self.gen_text(rng)
             elif r < 0.45:
                 yield self.gen_layout(rng, False)
@@ -1626,7 +1888,7 @@ class C17(core.Check):
     # ================================================================= shrinking
     def shrink_candidates(self, case):
         k = case["kind"]
-        if k in ("text", "markup"):
+        if k in ("text", "markup", "clip"):
             for m in self.shrink_markup(case["m"]):
                 c = dict(case)
                 c["m"] = m
